@@ -17,6 +17,15 @@ MODULES = {
     "C06": "p_text",
     "C04": "p_text",
     "C17": "p_text",
+    "C02": "p_marker",
+    "C03": "p_marker",
+    "C07": "p_marker",
+    "C12": "p_marker",
+    "C15": "p_marker",
+    "C10": "p_marker2",
+    "C11": "p_marker2",
+    "C13": "p_marker2",
+    "C14": "p_marker2",
     "C08": "p_tags",
     "C09": "p_tags",
     "C16": "p_tags",
